@@ -28,6 +28,8 @@ GroupPool == { [name |-> "Ga", mand |-> <<"Tb">>, opt |-> <<"Ta">>, insts |-> <<
                [name |-> "Gc", mand |-> <<"Tb", "Tc">>, opt |-> <<>>, insts |-> <<[cont |-> "Box", ctx |-> "none"]>>],
                [name |-> "Gd", mand |-> <<"Td">>, opt |-> <<"Tc">>, insts |-> <<[cont |-> "Box", ctx |-> "Arc"], [cont |-> "Box", ctx |-> "none"]>>],
                \* Tb and Tg have two function names in common (f, n0): several clashing functions per member trait
+               \* a group whose own name ends in "Container" (its container struct is `StoreContainerContainer_..`)
+               [name |-> "StoreContainer", mand |-> <<"Tc">>, opt |-> <<>>, insts |-> <<[cont |-> "Box", ctx |-> "Arc"]>>],
                [name |-> "Ge", mand |-> <<"Tb">>, opt |-> <<"Tg">>, insts |-> <<[cont |-> "Box", ctx |-> "Arc"], [cont |-> "Ref", ctx |-> "none"]>>] }
 Cfgs == { [default_container |-> "", default_context |-> "", function_prefix |-> ""],
           [default_container |-> "Box", default_context |-> "Arc", function_prefix |-> ""],
